@@ -163,6 +163,10 @@ class MediaQuery(cssutils.util._NewBase):  # cssutils.util.Base):
 
         # parse
         ok, seq, store, unused = ProdParser().parse(mediaText, 'MediaQuery', prods)
+        if not self._partof:
+            # only an enclosing media list takes over the token this query
+            # stopped at, a standalone query must not leave it behind
+            del cssutils.prodparser.savedTokens[:]
         self._wellformed = ok
         if ok:
             try:
